@@ -87,25 +87,20 @@ Theorem c07_history_independent_partial :
   forall (W : world) (fx : bool) (h : list (op W)) (o : op W),
     stale_free W h = true \/ is_classify W o = false ->
     out_after W fx h o = fresh W fx o h.
-Proof. intros W fx h o H. apply history_independent_partial. right. exact H. Qed.
+Proof. exact history_independent_partial_guard. Qed.
 Print Assumptions c07_history_independent_partial.
 
 (* the two guards of the property text are instances *)
 Theorem c07_history_independent_partial_all_rules :
   forall (W : world) (fx : bool) (h : list (op W)) (o : op W),
     all_loads_rules W h = true -> out_after W fx h o = fresh W fx o h.
-Proof.
-  intros W fx h o H. apply history_independent_partial. right. left. apply all_rules_stale_free. exact H.
-Qed.
+Proof. exact history_independent_all_rules. Qed.
 Print Assumptions c07_history_independent_partial_all_rules.
 
 Theorem c07_history_independent_partial_no_rules_before_other :
   forall (W : world) (fx : bool) (h : list (op W)) (o : op W),
     no_rules_before_other W h = true -> out_after W fx h o = fresh W fx o h.
-Proof.
-  intros W fx h o H. apply history_independent_partial. right. left.
-  apply no_rules_before_other_stale_free. exact H.
-Qed.
+Proof. exact history_independent_no_rules_before_other. Qed.
 Print Assumptions c07_history_independent_partial_no_rules_before_other.
 
 (* with get_all_rules resetting _cached_engine on entry: the full statement, all histories *)
@@ -118,7 +113,7 @@ Print Assumptions c07_history_independent_fixed.
 Theorem c07_history_independent_of_source :
   C07CacheKeys.get_all_rules_resets_cached_engine = true ->
   history_independent C07CacheKeys.get_all_rules_resets_cached_engine.
-Proof. intros H. rewrite H. exact history_independent_fixed. Qed.
+Proof. exact (history_independent_of_flag _). Qed.
 Print Assumptions c07_history_independent_of_source.
 
 (* ---- frame -------------------------------------------------------------------------------------- *)
